@@ -970,3 +970,84 @@ def rf156(run):
         if why:
             run.violation(rule, f, 'C text of %s' % nm, 'mir2c translates %s wrongly: %s' % (nm, why), line=stmts[0]['l'] if stmts else f.line)
     return n
+
+
+# ---------------------------------------------------------------------------------------------
+# RF167: the address expression of a memory operand
+# ---------------------------------------------------------------------------------------------
+
+def rf167(run):
+    import re
+    from lib import printexec as PE
+    from lib import regions as R
+    rule = 'RF167'
+    run.rule(rule, 'mir2c out_op, memory operands: the MIR_OP_MEM case is executed abstractly for every shape — displacement in {0, 16, -4}, base '
+                   'and index register present or absent, scale in {1, 4, 8} — and the printed C text is parsed: `*(T*) (E)` (no dereference '
+                   'for block memory), where E is evaluated with numbers in place of the register names and equals disp + base + index * '
+                   'scale.  A separator lost between two parts (`i * 416` for index * 4 + 16) gives valid C with another address')
+    tu = run.tu('mir2c')
+    f = tu.func('out_op')
+    run.functions_analysed.add(('mir2c', f.name))
+    sws = R.find_switches(f, lambda c: c.replace(' ', '').endswith('mode'))
+    if not sws:
+        raise F.AnalysisBroken('out_op: switch on the operand mode not found')
+    regs = R.switch_regions(f, max(sws, key=lambda s_: sum(1 for _ in F.walk(s_))))
+    idx = [i for i, r in enumerate(regs) if 'MIR_OP_MEM' in [c[0] for c in r['cases']]]
+    if not idx:
+        raise F.AnalysisBroken('out_op: no case for MIR_OP_MEM')
+    stmts = regs[idx[0]]['stmts']
+    ty = dict(tu.enum('MIR_type_t'))
+    BASE, INDEX = 1000003, 1009
+    n = 0
+    for blk in (False, True):
+        for disp in (0, 16, -4):
+            for base in (0, 7):
+                for index in (0, 9):
+                    for scale in ((1, 4, 8) if index else (1,)):
+                        def regname(a, e, x):
+                            v = x.val(a[1], e)
+                            return 'BASEREG' if v == 7 else 'INDEXREG' if v == 9 else 'NOREG'
+                        ex = PE.PrintExec(tu, {}, {'MIR_reg_name': regname,
+                                                   'MIR_blk_type_p': lambda a, e, x: int(blk), 'MIR_all_blk_type_p': lambda a, e, x: int(blk)},
+                                          {'out_type': lambda a, e, x: 'T'})
+                        ex.concrete_ints = True
+                        env = {'op.u.mem.type': ty['MIR_T_BLK'] if blk else ty['MIR_T_I32'], 'op.u.mem.disp': 0 if blk and False else disp,
+                               'op.u.mem.base': base, 'op.u.mem.index': index, 'op.u.mem.scale': scale, 'op.mode': 0}
+                        try:
+                            for st in stmts:
+                                r_ = ex.run(st, env)
+                                if r_ in ('break', 'return'):
+                                    break
+                        except F.AnalysisBroken as e_:
+                            raise F.AnalysisBroken('out_op (memory operand): %s' % e_)
+                        txt = ' '.join(ex.text().split())
+                        m = re.fullmatch(r'(\*\(T ?\*\) ?)?\((.*)\)', txt)
+                        why = None
+                        if not m:
+                            why = 'text `%s` is not of the form `*(T*) (E)`' % txt
+                        elif bool(m.group(1)) == blk:
+                            why = ('a block memory operand is dereferenced' if blk else 'the operand is not dereferenced') + ' (`%s`)' % txt
+                        else:
+                            e = m.group(2).replace('BASEREG', str(BASE)).replace('INDEXREG', str(INDEX))
+                            if 'NOREG' in e or not re.fullmatch(r'[-+*() 0-9]+', e):
+                                why = 'address expression `%s` has an unexpected part' % m.group(2)
+                            else:
+                                try:
+                                    v = eval(e, {'__builtins__': {}}, {})
+                                except Exception:
+                                    v = None
+                                # the size of a block is kept in the displacement field: the printed displacement of block memory is 0
+                                want = (0 if blk else disp) + (BASE if base else 0) + (INDEX * scale if index else 0)
+                                if v != want:
+                                    why = 'address expression `%s` is not %s' % (m.group(2), ' + '.join(
+                                        ([str(disp)] if disp and not blk else []) + (['base'] if base else []) + (['index * %d' % scale] if index else [])) or '0')
+                        n += 1
+                        if why or (disp, base, index, scale) in ((16, 7, 9, 4), (16, 0, 9, 4), (0, 0, 0, 1)):
+                            run.ob(rule, (blk, disp, base, index, scale), why is None, {'block memory': blk, 'disp': disp, 'base': bool(base), 'index': bool(index),
+                                                                                      'scale': scale, 'text': txt})
+                        else:
+                            run.ob(rule, (blk, disp, base, index, scale), True)
+                        if why:
+                            run.violation(rule, f, 'address of a memory operand', 'mir2c prints the memory operand (disp %d, %s, %s, scale %d) wrongly: %s' %
+                                          (disp, 'base' if base else 'no base', 'index' if index else 'no index', scale, why), line=stmts[0]['l'] if stmts else f.line)
+    return n
